@@ -3,6 +3,7 @@
 #include "registry.hpp"
 
 DecConsts g_dc;
+bool g_fuzz_mode = false;
 std::vector<Clause>& registry() { static std::vector<Clause> r; return r; }
 
 sigjmp_buf g_jb;
